@@ -2,9 +2,14 @@
 
     summary = engines.bwtables.run_part(ctx)        # called from engines/c01.py
 
+    err = engines.bwtables.prepare(ctx)             # optional, before ctx.prove(): see prepare()
+
 Tie (T): translate/gen_bwtables.py regenerates coq/Gen/BwTables.v (parsed BACKWARD(op) bodies of every
 operator class + FORWARD(op), the Tensor functions / arithmetic operators FORWARD goes through and the
-signatures of the Device entries) from the CURRENT source on every run.
+signatures of the Device entries) from the CURRENT source on every run.  For a scratch tree (PV_REPO)
+the table goes to _work/gen/bw-scratch-<hash>/Gen/BwTables.v and PRIVATE copies of Tables/BwCheck.v,
+Tables/BwFacts.v and the Properties file are compiled against it under the logical root PVS, so that
+concurrent checks of /repo and of scratch trees never see each other's table.
 Proof: Props/Properties_C01_tables.v is force-recompiled against it:
   C01_bw_accumulates_only      every write through gx[i] / param_.gradient() in every BACKWARD body is
                                `+=`, `-=` or an accumulating Device entry; NOP operators write nothing
@@ -93,6 +98,16 @@ def regenerate():
     except Exception:
         tabs = {}
     return g, tabs, err
+
+
+def prepare(ctx=None):
+    """Regenerate the table of the current tree WITHOUT checking anything.  Meant to be called by
+    engines/c01.py BEFORE ctx.prove(): Ctx.prove() force-recompiles every Props/Properties_C01_*.v,
+    this part's file included, against whatever coq/Gen/BwTables.v holds at that moment; calling
+    prepare() first makes that the table of the current /repo (for a scratch tree it only writes the
+    private copy, the shared file is never touched).  Returns the translator's error string or None."""
+    _, _, err = regenerate()
+    return err
 
 
 PRIVATE_MODULES = ("Gen.BwTables", "Tables.BwCheck", "Tables.BwFacts")
